@@ -42,6 +42,56 @@ def mandoline(inp, fformat, out=None, fields=None, normal=0, pos=None, limit=Non
         normal=normal, pos=pos, outfile=out, fformat=fformat)
 
 
+def colander_cli(inp, out, variables=("all",), limit=None, serial=False):
+    """the console script `colander` (argument parsing and defaults included)"""
+    argv = ["colander", inp, "-v"] + list(variables)
+    if limit is not None:
+        argv += ["-l", str(limit)]
+    if out is not None:
+        argv += ["-o", out]
+    if serial:
+        argv.append("-s")
+    return run_main("amr_kitchen.colander.cli", argv)
+
+
+def mandoline_cli(inp, fformat, out=None, fields=None, normal=None, pos=None, limit=None, serial=False):
+    """the console script `mandoline`; for fformat="array" returns the saved arrays as the API's "return" format does"""
+    argv = ["mandoline", inp, "-f", fformat, "-V", "0"]
+    if normal is not None:
+        argv += ["-n", str(normal)]
+    if pos is not None:
+        # one token: argparse takes a separate "-1e-05" (negative, exponent form) for an option name
+        argv += [f"--position={float(pos)!r}"]
+    if fields:
+        argv += ["-v"] + ([fields] if isinstance(fields, str) else list(fields))
+    if limit is not None:
+        argv += ["-L", str(limit)]
+    if out is not None:
+        argv += ["-o", out]
+    if serial:
+        argv.append("-s")
+    run_main("amr_kitchen.mandoline.cli", argv)
+    if fformat == "array" and out is not None:
+        with np.load(out + ".npz", allow_pickle=True) as z:
+            return {k: z[k] for k in z.files}
+
+
+def combine_cli(p1, p2, out=None, vars1=None, vars2=None):
+    """the console script `combine`; returns the exit status the setuptools wrapper `sys.exit(main())` would give"""
+    argv = ["combine", "-p1", p1, "-p2", p2]
+    if out is not None:
+        argv += ["-o", out]
+    if vars1 is not None:
+        argv += ["-v1", vars1 if isinstance(vars1, str) else " ".join(vars1)]
+    if vars2 is not None:
+        argv += ["-v2", vars2 if isinstance(vars2, str) else " ".join(vars2)]
+    try:
+        r = run_main("amr_kitchen.combine.cli", argv)
+    except SystemExit as e:
+        r = e.code
+    return 0 if r is None else r        # sys.exit(None) is status 0, sys.exit(obj) prints obj and is status 1
+
+
 def whip(inp, field, out=None, dtype="float64", limit=None):
     argv = ["whip", "-v", field, "-d", dtype, "-y"]
     if out is not None:
